@@ -1,4 +1,6 @@
 import Pyunicorn.Lemmas.Window
+import Pyunicorn.Lemmas.WindowShuffle
+import Pyunicorn.Lemmas.WindowFloat
 import Pyunicorn.Generated.ArithC13
 /-!
 # C13 — Data windows select exactly the requested samples; anomalies sum
@@ -1641,5 +1643,169 @@ theorem pinned_rejected_window_breaks_shapes :
 theorem pinned_anomalies_shortcut_breaks_shapes :
     ∃ v, applyWindow exFull ⟨1, 5, 0, 5, 1, 3⟩ = some v ∧ exFull.obs.length ≠ v.obs.length :=
   ⟨_, rfl, by decide +kernel⟩
+
+/-! ## 12. Round 4: `numpy.random.shuffle` as executed — `shuffled_anomaly()` for every draw stream
+
+The permutation applied by `random.shuffle` is no longer a parameter: the model runs NumPy's
+masked rejection sampling (`random_interval`) and the Fisher–Yates loop (`_shuffle_raw`) on the
+raw 32-bit output stream of the generator, column after column, on one stream. -/
+
+/-- `random_interval(max)`, whatever the stream holds: the value lies in `[0, max]` (so the swap
+of the shuffle stays inside the array) and the stream left over is a suffix of the stream -/
+theorem random_interval_in_range (max : Nat) (ds : List Nat) (v : Nat) (r : List Nat)
+    (h : randomInterval max ds = some (v, r)) : v ≤ max ∧ r <:+ ds :=
+  randomInterval_spec max ds v r h
+
+/-- the rejection loop: a draw is accepted iff its masked value is `≤ max`, otherwise the next
+draw is examined (`max ≤ 0xffffffff`: the 32-bit branch, every array with at most 2³² entries) -/
+theorem random_interval_rejection (max d : Nat) (ds : List Nat) (h0 : max ≠ 0) (h32 : max ≤ 0xffffffff) :
+    randomInterval max (d :: ds)
+      = if d &&& bitMask max ≤ max then some (d &&& bitMask max, ds) else randomInterval max ds :=
+  randomInterval_cons max d ds h0 h32
+
+/-- `mask |= mask >> 1; …; mask |= mask >> 32` is the all-ones number of the bit length of `max`:
+it is `≥ max`, fewer than half of the masked values are rejected, and **every** index `j ≤ max`
+is produced by some draw (the draw `j` itself) — no position of the array is excluded -/
+theorem random_interval_reaches_every_index (max : Nat) (h0 : max ≠ 0) (h32 : max ≤ 0xffffffff) :
+    bitMask max = 2 ^ (max.log2 + 1) - 1 ∧ max ≤ bitMask max ∧ bitMask max + 1 ≤ 2 * max
+      ∧ ∀ j ds, j ≤ max → randomInterval max (j :: ds) = some (j, ds) := by
+  have h64 : max < 2 ^ 64 := by omega
+  exact ⟨bitMask_eq max h0 h64, (bitMask_bounds max h0 h64).1, (bitMask_bounds max h0 h64).2,
+    fun j ds hj => randomInterval_hits max j ds h0 h32 hj⟩
+
+/-- **`numpy.random.shuffle` returns a rearrangement, for every draw stream**; arrays with at
+most one entry are returned unchanged without drawing -/
+theorem shuffle_is_permutation {α : Type} (xs : List α) (ds : List Nat) (ys : List α) (r : List Nat)
+    (h : npShuffle xs ds = some (ys, r)) : ys.Perm xs ∧ ys.length = xs.length ∧ r <:+ ds :=
+  npShuffle_spec xs ds ys r h
+
+theorem shuffle_short_is_identity {α : Type} (xs : List α) (ds : List Nat) (h : xs.length ≤ 1) :
+    npShuffle xs ds = some (xs, ds) := npShuffle_short xs ds h
+
+/-- **`shuffled_anomaly()` for every draw stream and every content of `np.empty`**: the result
+has the shape of `anomaly()`, every column is a rearrangement of the same column of `anomaly()`,
+nothing of the uninitialised array survives (two different initial contents give the same
+result), and the generator is left at a later point of the same stream -/
+theorem shuffled_anomaly_raw_spec (A : Mat) (n : Nat) (E : Mat) (ds : List Nat) (S : Mat) (r : List Nat)
+    (hE : E.length = A.length) (hEr : ∀ row ∈ E, row.length = n)
+    (h : shuffledAnomalyRaw A n E ds = some (S, r)) :
+    S.length = A.length ∧ (∀ row ∈ S, row.length = n)
+      ∧ (∀ j, j < n → (column S j).Perm (column A j))
+      ∧ r <:+ ds
+      ∧ ∀ E' : Mat, E'.length = A.length → (∀ row ∈ E', row.length = n) →
+          shuffledAnomalyRaw A n E' ds = some (S, r) := by
+  obtain ⟨a, b, c, _, e⟩ := shuffleColumns_spec A n n 0 E ds S r hE hEr (by omega) h
+  refine ⟨a, b, fun j hj => c j (Nat.zero_le _) (by omega), e, ?_⟩
+  intro E' hE' hEr'
+  have hag := shuffleColumns_agree A n n 0 E E' ds (by omega)
+    (agree_zero n E E' (by rw [hE, hE']) hEr hEr')
+  unfold shuffledAnomalyRaw at h ⊢
+  rw [h] at hag
+  cases h2 : shuffleColumns A n 0 E' ds with
+  | none => rw [h2] at hag; exact hag.elim
+  | some p =>
+    obtain ⟨R2, r2⟩ := p
+    rw [h2] at hag
+    simp only [Nat.zero_add] at hag
+    rw [agree_full_eq n S R2 hag.1, hag.2]
+
+/-- the stream on which the shuffles of successive columns run is *one* stream: column `j + 1`
+starts where column `j` stopped (unfolding of the loop) -/
+theorem shuffled_anomaly_columns_share_stream (A : Mat) (k j : Nat) (S : Mat) (ds : List Nat) :
+    shuffleColumns A (k + 1) j S ds
+      = match npShuffle (column A j) ds with
+        | none => none
+        | some (col, ds') => shuffleColumns A k (j + 1) (setColumn S j col) ds' := rfl
+
+/-- **after every history** of window changes, queries and evictions, `shuffled_anomaly()` —
+for every draw stream — has the shape of the *current* window and every column is a
+rearrangement of the corresponding column of the anomalies *of the current window* -/
+theorem shuffled_anomaly_after_history (o : Obj) (ops : List Op) (hi : o.Inv) (E : Mat) (ds : List Nat)
+    (S : Mat) (r : List Nat)
+    (hE : E.length = (o.run ops).cur.time.length)
+    (hEr : ∀ row ∈ E, row.length = (o.run ops).cur.lat.length)
+    (h : ((o.run ops).shuffledAnomalyQ E ds).1 = some (S, r)) :
+    S.length = (o.run ops).cur.time.length
+      ∧ (∀ row ∈ S, row.length = (o.run ops).cur.lat.length)
+      ∧ (∀ j, j < (o.run ops).cur.lat.length →
+          (column S j).Perm (column (o.run ops).anomalyFresh j))
+      ∧ r <:+ ds := by
+  have hs := shapes_agree o ops hi
+  have hq := (queries_follow_window o ops hi).2
+  simp only at hs
+  obtain ⟨_, _, _, h4, _, _, _⟩ := hs
+  simp only [Obj.shuffledAnomalyQ, Obj.ncols] at h
+  obtain ⟨a, b, c, e, _⟩ := shuffled_anomaly_raw_spec _ _ E ds S r (by rw [hE, h4]) hEr h
+  rw [hq] at c
+  exact ⟨by rw [a, h4], b, c, e⟩
+
+/-- non-vacuity: the draws `5, 1` shuffle a column of three (mask 3 for `i = 2`: `5 & 3 = 1`;
+mask 1 for `i = 1`: `1 & 1 = 1`), a rejected draw (`3 & 3 = 3 > 2`) is skipped -/
+example : npShuffle [(10 : Rat), 20, 30] [5, 1, 99] = some ([10, 30, 20], [99]) := by decide +kernel
+example : npShuffle [(10 : Rat), 20, 30] [3, 7, 4, 2] = some ([20, 30, 10], []) := by decide +kernel
+example : npShuffle [(10 : Rat), 20, 30] [3, 7] = none := by decide +kernel
+example : bitMask 5 = 7 ∧ bitMask 8 = 15 ∧ bitMask 1 = 1 ∧ bitMask 0xffffffff = 0xffffffff := by
+  decide +kernel
+/-- two columns on one stream; the content of `np.empty` (here 7s and 8s) is overwritten -/
+example : shuffledAnomalyRaw [[1, 10], [2, 20], [3, 30]] 2 [[7, 7], [8, 8], [7, 8]] [5, 1, 0, 0, 42]
+    = some ([[1, 20], [3, 30], [2, 10]], [42]) := by decide +kernel
+
+/-! ## 13. Round 4: float rounding of `phase_mean()` / `anomaly()` under the standard model
+
+`F : FlArith u ud` is any arithmetic with relative error `≤ u` per `+` / `-` and `≤ ud` per
+division (binary64: `u = ud = 2⁻⁵³`); `t : SumTree` is the order in which NumPy adds the samples
+of one phase and node — the statements hold for every order.  The harness evaluates these bounds
+in exact arithmetic on the values the real code returns (instead of a chosen tolerance). -/
+
+/-- **the computed phase mean** of node `j` and phase `i` differs from the exact one (the entry of
+the rational model `colMean`) by at most `((1+u)^(k−1) (1+ud) − 1) · mean|x|`, `k` = number of
+samples of the phase, for every order of summation of the column `observable[i::c, j]` -/
+theorem float_phase_mean_error {u ud : ℚ} (F : FlArith u ud) (hu : 0 ≤ u) (hud : 0 ≤ ud)
+    (c n i j : Nat) (obs : Mat) (h : ∀ r ∈ obs, r.length = n) (hj : j < n) (m : Vec)
+    (hm : colMean n (everyNth c i obs) = some m)
+    (t : SumTree) (ht : t.leaves = column (everyNth c i obs) j) :
+    |flMean F t - m.getD j 0|
+      ≤ ((1 + u) ^ (t.leaves.length - 1) * (1 + ud) - 1)
+          * ((t.leaves.map (|·|)).sum / t.leaves.length) := by
+  have hrows : ∀ r ∈ everyNth c i obs, r.length = n := fun r hr => h r (mem_everyNth _ _ _ _ hr)
+  rw [colMean_getD n _ j m hrows hj hm, ← ht]
+  exact mean_error_n F hu hud t
+
+/-- **add-back under rounding**: the computed anomaly `fl(x − m̂)` plus the number `m̂` that was
+subtracted (the computed phase mean, whatever its error) is the observable up to one rounding
+error of their difference -/
+theorem float_addback_error {u ud : ℚ} (F : FlArith u ud) (x m : ℚ) :
+    |F.sub x m + m - x| ≤ u * |x - m| := addback_error F x m
+
+/-- **zero phase mean under rounding**: the mean of the computed anomalies of one phase and node
+(`xs` = the samples, `t` any order of summing them, `m̂ = flMean F t` the computed mean) is at most
+the error bound of the mean plus `u` times the mean absolute deviation -/
+theorem float_anomaly_phase_mean_error {u ud : ℚ} (F : FlArith u ud) (hu : 0 ≤ u) (hud : 0 ≤ ud)
+    (t : SumTree) :
+    |(t.leaves.map (F.sub · (flMean F t))).sum / t.leaves.length|
+      ≤ ((1 + u) ^ (t.leaves.length - 1) * (1 + ud) - 1)
+            * ((t.leaves.map (|·|)).sum / t.leaves.length)
+        + u * ((t.leaves.map fun x => |x - flMean F t|).sum / t.leaves.length) := by
+  have hne : t.leaves ≠ [] := by
+    have := t.depth_lt_leaves
+    intro h0
+    rw [h0] at this
+    simp at this
+  have h1 := anomaly_mean_error F (flMean F t) t.leaves hne
+  have h2 := mean_error_n F hu hud t
+  rw [abs_sub_comm] at h2
+  linarith
+
+/-- with exact arithmetic (`u = ud = 0`) the three bounds are the exact statements again -/
+theorem float_bounds_exact_case (t : SumTree) :
+    flMean (FlArith.exactArith 0 0 (le_refl _) (le_refl _)) t = t.leaves.sum / t.leaves.length := by
+  have := mean_error_n (FlArith.exactArith 0 0 (le_refl _) (le_refl _)) (le_refl _) (le_refl _) t
+  simp only [add_zero, one_pow, mul_one, sub_self, zero_mul] at this
+  exact sub_eq_zero.1 (abs_nonpos_iff.1 this)
+
+/-- non-vacuity: the sequential order of a reduction over axis 0 is a summation tree with the
+samples as leaves and depth `k − 1` -/
+example : (SumTree.seq 3 [1, 4, 1, 5]).leaves = [3, 1, 4, 1, 5] ∧ (SumTree.seq 3 [1, 4, 1, 5]).depth = 4 :=
+  SumTree.seq_spec 3 [1, 4, 1, 5]
 
 end Pyunicorn.Window
